@@ -56,7 +56,7 @@ type av struct {
 	lo       int // slice window
 	hi       int
 	tup      []av
-	emptyStr bool // bytes: the constant empty string
+	emptyStr bool          // bytes: the constant empty string
 	clo      *ssa.Function // closure: the function literal ...
 	cbind    []av          // ... and the values of its free variables
 }
